@@ -28,7 +28,7 @@ var R = hx.NewRecorder("C16", "cases = histories (rapid state machine) of up to 
 	"oracle = model of what must / must not / may resume; DidResume equal on both ends; a resumed GMSSL connection must decode under the ORIGINAL master secret with the new randoms (independent passive decoder), keep version, suite and peer certificates; a non-resumed one must be a full handshake; data round trip after every connection; non-trivial = a connection that offered a ticket; distinct by hash of the history")
 
 func TestMain(m *testing.M) {
-	R.Require("per_client_config", "resumed_by_a_clone", "tls_ticket:tampered", "tls_ticket:genuine", "version_changed", "ticket_opened", "ekm_reference", "original_master_proved", "resumed_gm", "resumed_tls", "rotated_old_key_accepted", "rotated_dropped", "tampered", "evicted", "policy_now_forbids_certs", "policy_now_requires_certs", "policy_now_verifies_untrusted_cert:gm=true", "policy_now_verifies_untrusted_cert:gm=false", "resumed_identity_verified:gm=true", "resumed_identity_verified:gm=false", "tickets_disabled", "server_switched", "suite_removed", "must_resume", "must_not_resume")
+	R.Require("clones_of_a_configuration_without_tickets", "per_client_config", "resumed_by_a_clone", "tls_ticket:tampered", "tls_ticket:genuine", "version_changed", "ticket_opened", "ekm_reference", "original_master_proved", "resumed_gm", "resumed_tls", "rotated_old_key_accepted", "rotated_dropped", "tampered", "evicted", "policy_now_forbids_certs", "policy_now_requires_certs", "policy_now_verifies_untrusted_cert:gm=true", "policy_now_verifies_untrusted_cert:gm=false", "resumed_identity_verified:gm=true", "resumed_identity_verified:gm=false", "tickets_disabled", "server_switched", "suite_removed", "must_resume", "must_not_resume")
 	hx.Main(m, R)
 }
 
@@ -682,6 +682,10 @@ func TestC16_ClonedConfigs(t *testing.T) {
 		}
 		cfgs := []*gmtls.Config{mk(fmt.Sprint("cl", hn))}
 		keys := [][][32]byte{{keyN(1)}}
+		// a quarter of the histories: the original configuration has tickets disabled - and so has every clone of it:
+		// nothing is ever resumed, whatever keys the objects hold
+		ticketsDisabled := gen.OneIn(t, "ticketsDisabled", 4)
+		cfgs[0].SessionTicketsDisabled = ticketsDisabled
 		cfgs[0].SetSessionTicketKeys(keys[0])
 		nextKey := 2
 		cache := gmtls.NewLRUClientSessionCache(8)
@@ -707,7 +711,7 @@ func TestC16_ClonedConfigs(t *testing.T) {
 				}
 				cc.ServerName, cc.InsecureSkipVerify, cc.ClientSessionCache = "", true, cache
 				k, cached := sess[name]
-				want := cached && hasKey(keys[i], k)
+				want := cached && hasKey(keys[i], k) && !ticketsDisabled
 				r := tlsx.Run(cc, cfgs[i], tlsx.Script{ClientSend: []byte("c" + id), ServerSend: []byte("s" + id), ServerAddr: name, ClientAddr: "client:" + id})
 				hist = append(hist, fmt.Sprintf("connect(cfg%d,%s)", i, name))
 				desc := fmt.Sprintf("history %v | gm=%v | model: cached=%v want resume=%v | %s", hist, gm, cached, want, r.Describe())
@@ -726,7 +730,9 @@ func TestC16_ClonedConfigs(t *testing.T) {
 				if cached && !want && lastRotated >= 0 {
 					refusedAfterForeignRotation = true
 				}
-				sess[name] = keys[i][0]
+				if !ticketsDisabled {
+					sess[name] = keys[i][0]
+				}
 			},
 			"rotate": func(t *rapid.T) {
 				i := rapid.IntRange(0, len(cfgs)-1).Draw(t, "cfg")
@@ -769,6 +775,9 @@ func TestC16_ClonedConfigs(t *testing.T) {
 		}
 		if refusedAfterForeignRotation {
 			cl = append(cl, "clone_refused_foreign_key")
+		}
+		if ticketsDisabled && len(cfgs) >= 2 && conns >= 2 {
+			cl = append(cl, "clones_of_a_configuration_without_tickets")
 		}
 		R.Case(conns >= 2 && len(cfgs) >= 2, hx.HashKey("clone", fmt.Sprint(hist), gm), cl...)
 		R.Sample("cloned_configs", map[string]interface{}{"history": hist, "gm": gm})
